@@ -3,6 +3,7 @@ package rules
 import (
 	"go/token"
 	"go/types"
+	"sort"
 
 	"golang.org/x/tools/go/ssa"
 
@@ -280,30 +281,29 @@ func runC16(c *Ctx) {
 			hcall = ci
 		}
 		isDone := func(ci ssa.CallInstruction) bool { return wgOp(ci) == "Done" }
+		// every path to the target passes Add (branches on the same closing-test value are correlated)
+		passesAdd := func(target ssa.Instruction) bool {
+			if core.InstrDominates(addCall, target) {
+				return true
+			}
+			if loadCall == nil {
+				return false
+			}
+			for _, assume := range []bool{false, true} {
+				r0 := reachableAssuming(csc.Blocks[0], func(b *ssa.BasicBlock) bool { return b == addCall.Block() }, loadCall, assume)
+				if r0[target.Block()] {
+					return false
+				}
+			}
+			return true
+		}
 		doneDeferred := false
 		for _, ci := range core.Calls(csc) {
-			if d, ok := ci.(*ssa.Defer); ok && isDone(d) && core.InstrDominates(addCall, d) {
+			if d, ok := ci.(*ssa.Defer); ok && isDone(d) && passesAdd(d) {
 				doneDeferred = true
 			}
 		}
-		// every path to the handler passes Add (branches on the same closing-test value are correlated)
-		ok := hcall != nil
-		if ok && !core.InstrDominates(addCall, hcall) {
-			for _, assume := range []bool{false, true} {
-				var tested ssa.Value
-				if loadCall != nil {
-					tested = loadCall
-				}
-				if tested == nil {
-					ok = false
-					break
-				}
-				r0 := reachableAssuming(csc.Blocks[0], func(b *ssa.BasicBlock) bool { return b == addCall.Block() }, tested, assume)
-				if r0[hcall.Block()] {
-					ok = false
-				}
-			}
-		}
+		ok := hcall != nil && passesAdd(hcall)
 		sameBlockDone := false
 		for _, in := range addCall.Block().Instrs {
 			if ci, isCall := in.(ssa.CallInstruction); isCall && isDone(ci) && core.InstrIndex(in) > core.InstrIndex(addCall) {
@@ -542,6 +542,79 @@ func runC16(c *Ctx) {
 	}
 	R.Floor("C16.R4", "instructions executed under Server.mu", nHeld, 4)
 	R.OK("C16.R4", "no-blocking-under-Server.mu", "-", "no blocking operation is performed while Server.mu is held", sprintf("%d instructions under the lock inspected", nHeld))
+
+	// ---------- R3 (continued): the handler runs on the goroutine that holds the registration. A goroutine started while
+	// a command is handled is not covered by wg.Add / wg.Done: if it runs user code (the statement function, the
+	// parser, a cache) that code can still be executing when Close has returned.
+	if hc := c.P.Method("wire", "Session", "handleCommand"); hc != nil {
+		region := map[*ssa.Function]bool{}
+		cg := c.P.CHA()
+		var walk func(fn *ssa.Function)
+		walk = func(fn *ssa.Function) {
+			if fn == nil || region[fn] || !c.P.InScope(fn) {
+				return
+			}
+			region[fn] = true
+			if n := cg.Nodes[fn]; n != nil {
+				for _, e := range n.Out {
+					walk(e.Callee.Func)
+				}
+			}
+			for _, anon := range fn.AnonFuncs {
+				walk(anon)
+			}
+		}
+		walk(hc)
+		nGo := 0
+		var fns []*ssa.Function
+		for fn := range region {
+			fns = append(fns, fn)
+		}
+		sort.Slice(fns, func(i, j int) bool { return fns[i].String() < fns[j].String() })
+		for _, fn := range fns {
+			for _, ci := range core.Calls(fn) {
+				g, isGo := ci.(*ssa.Go)
+				if !isGo {
+					continue
+				}
+				nGo++
+				// does the goroutine run code the library does not own (a callback, an interface method of a user type)?
+				var target *ssa.Function
+				if mc, ok := g.Call.Value.(*ssa.MakeClosure); ok {
+					target, _ = mc.Fn.(*ssa.Function)
+				} else {
+					target = core.StaticCallee(g)
+				}
+				runsForeign := target == nil
+				seen := map[*ssa.Function]bool{}
+				var scan func(f *ssa.Function)
+				scan = func(f *ssa.Function) {
+					if f == nil || seen[f] || runsForeign {
+						return
+					}
+					seen[f] = true
+					for _, ci2 := range core.Calls(f) {
+						if callbackName(ci2) != "" {
+							runsForeign = true
+							return
+						}
+						if cc := ci2.Common(); cc.IsInvoke() {
+							if n := core.NamedOf(cc.Value.Type()); n != nil && n.Obj().Pkg() != nil && n.Obj().Pkg().Path() == pkWire {
+								runsForeign = true // StatementCache / PortalCache / DataWriter ...: user-replaceable
+								return
+							}
+						}
+						if callee := core.StaticCallee(ci2); callee != nil && c.P.InScope(callee) {
+							scan(callee)
+						}
+					}
+				}
+				scan(target)
+				R.Check(!runsForeign, "C16.R3", fkey(fn)+":no-handler-goroutine", c.at(g), "user code started by a command runs on the goroutine that holds the command's registration (so Close waits for it)", "the goroutine started here runs library code only", "a goroutine started while a command is handled runs a handler / callback: wg.Done fires when the spawning function returns (e.g. on context cancellation) and Close returns while the statement function is still executing")
+			}
+		}
+		R.OK("C16.R3", "handler-region:goroutines", c.atFn(hc), "user code started by a command runs on the goroutine that holds the command's registration", sprintf("%d functions reachable from handleCommand, %d go statements inspected", len(region), nGo))
+	}
 }
 
 func lockOpName(ci ssa.CallInstruction) (string, bool) {
